@@ -88,6 +88,44 @@ PROPS["C03"] = {
     "jobs": 10,
 }
 
+# ---------------------------------------------------------------- C04 / C08
+_DIJ = {"ac": [("src/graph/mod.rs", "model.rs"), ("src/algorithms/shortest_path/dijkstra.rs", "dijkstra_ac.rs")]}
+ATTACH["C04"] = _DIJ
+ATTACH["C08"] = _DIJ
+PROPS["C04"] = {
+    "harnesses": [H(name, "ac", what, tier=tier, covers=covers, bounds="3 nodes, <=7 edges, weights 1..8, unwind 8", timeout=1800) for (name, call, tier, covers, what) in _gen.c04_cases()],
+    "outside": "graphs with more than 3 nodes; non-integer weights (exact float equality is only meaningful for exact sums); zero weights in all-paths mode; the n > 20 parallel branch (C07); the position->name translation of single_source/multi_source/all_pairs (covered in the thorough tier of C08 only where it fits)",
+    "assumptions": ["the index-level kernels dijkstra()/dijkstra_basic() are called directly on graphs produced by build_direct"],
+    "jobs": 8,
+}
+PROPS["C08"] = {
+    "harnesses": [H(name, "ac", what, tier=tier, covers=covers, bounds="3 nodes, weights 1..8, unwind 8", timeout=1800) for (name, call, tier, covers, what) in _gen.c08_cases()],
+    "outside": "graphs with more than 3 nodes; all_pairs == multi_source == per-node single_source at the name level; get_all_shortest_paths_involving; symmetry / triangle inequality (follow from the oracle equality for every source)",
+    "assumptions": ["the index-level kernels are called directly on graphs produced by build_direct"],
+    "jobs": 8,
+}
+
+# ---------------------------------------------------------------- C05 / C06
+ATTACH["C05"] = {"ac": [("src/graph/mod.rs", "model.rs"), ("src/algorithms/centrality/betweenness.rs", "betweenness_ac.rs")]}
+PROPS["C05"] = {
+    "harnesses": [
+        H("c05_rescale_all", "ac", "rescale on vectors of every length n <= 6 with arbitrary finite values, both flags symbolic", covers=["normalized", "halved"], bounds="n <= 6", timeout=900),
+        H("c05_get_scale_all", "ac", "get_scale for every n <= 10^6 and both flags", covers=["no scale"], bounds="n <= 1e6", timeout=600),
+    ] + [H(name, "ac", what, tier=tier, covers=covers, bounds="3 nodes; topology enumerated; unwind 8", timeout=1500) for (name, call, tier, covers, what) in _gen.c05_cases()],
+    "outside": "the weighted single-source stage (BinaryHeap Dijkstra in betweenness.rs: with one symbolic weight the symbolic execution exceeds 20 minutes, with constant weights the solver decides nothing) and therefore weighted betweenness as a whole; graphs with more than 3 nodes; the parallel branch (C07)",
+    "assumptions": ["graphs are produced by build_direct (validated by the c02_build_* harnesses)"],
+    "jobs": 10,
+}
+ATTACH["C06"] = {"ac": [("src/graph/mod.rs", "model.rs"), ("src/algorithms/centrality/closeness.rs", "closeness_ac.rs")]}
+PROPS["C06"] = {
+    "harnesses": [
+        H("c06_formula_all", "ac", "get_node_centrality for every r <= n <= 6, symbolic integer distances 1..8 and the WF flag", covers=["WF scaling on a partially reachable node", "isolated"], bounds="n <= 6", timeout=900),
+    ] + [H(name, "ac", what, tier=tier, covers=covers, bounds="3 nodes; topology enumerated; unwind 8", timeout=1500) for (name, call, tier, covers, what) in _gen.c06_cases()],
+    "outside": "the weighted search stage (BinaryHeap; same measurement as C05) and therefore weighted closeness; graphs with more than 3 nodes; the parallel branch (C07)",
+    "assumptions": ["graphs are produced by build_direct (validated by the c02_build_* harnesses)"],
+    "jobs": 10,
+}
+
 # ---------------------------------------------------------------- C09
 ATTACH["C09"] = {"ac": [("src/graph/mod.rs", "model.rs"), ("src/graph/degree.rs", "degree_ac.rs")]}
 PROPS["C09"] = {
@@ -102,14 +140,29 @@ PROPS["C09"] = {
 
 # ---------------------------------------------------------------- C10
 ATTACH["C10"] = {"ac": [("src/graph/mod.rs", "model.rs"), ("src/algorithms/components/mod.rs", "components_ac.rs")]}
+def _c10_cap(name):
+    import re as _re
+    m = _re.search(r'_m(\d+)', name)
+    if m and ("weak" in name or "strong" in name or "bfsparts_d" in name) and bin(int(m.group(1))).count("1") > 4:
+        return 8
+    return 4
 PROPS["C10"] = {
     "harnesses": [
-        H(name, "ac", what, tier=tier, covers=covers, bounds="3 nodes, topology symbolic (every subset of the potential edges), unwind 9", timeout=1500)
+        H(name, "ac", what, tier=tier, covers=covers, bounds="3 nodes; every topology enumerated by the generator (16 undirected, 128 directed), unwind %d" % (9 if _c10_cap(name) == 4 else 10), timeout=1500, cap=_c10_cap(name))
         for (name, call, tier, covers, what) in _gen.c10_cases()
     ],
     "outside": "graphs with more than 3 nodes (long cycles, nested SCCs of size > 3); hash-iteration orders other than the shim's slot order",
     "assumptions": ["graphs are produced by build_direct (validated by the c02_build_* harnesses)"],
     "jobs": 8,
+}
+
+# ---------------------------------------------------------------- C11
+ATTACH["C11"] = {"ac": [("src/graph/mod.rs", "model.rs"), ("src/algorithms/cluster/mod.rs", "cluster_ac.rs")]}
+PROPS["C11"] = {
+    "harnesses": [H(name, "ac", what, tier=tier, covers=covers, bounds="3 nodes; topologies enumerated by the generator; unwind 9", timeout=1500) for (name, call, tier, covers, what) in _gen.c11_cases()],
+    "outside": "the weighted forms (f64::cbrt is an unsupported foreign function in Kani); graphs with more than 3 nodes (squares need 4); values compared within 1e-12",
+    "assumptions": ["graphs are produced by build_direct (validated by the c02_build_* harnesses)"],
+    "jobs": 10,
 }
 
 # ---------------------------------------------------------------- C12
@@ -126,14 +179,14 @@ PROPS["C12"] = {
     ] + [
         H(n, "ac", "modularity value vs Newman's formula: %s; integer weights 1..8 symbolic, resolution in {0.5,1,2} symbolic; tolerance 1e-9" % w, tier=tr, covers=["reached end"], bounds="3 nodes, <=3 edges", timeout=1500)
         for (n, w, tr) in [
-            ("c12_modval_us_s0_p0_w", "undirected path, partition {2,0},{1}, weighted", "quick"),
-            ("c12_modval_ds_s0_p0_w", "directed path, partition {2,0},{1}, weighted", "quick"),
-            ("c12_modval_us_s1_p0_u", "undirected with a self-loop, unweighted", "quick"),
-            ("c12_modval_ds_s1_p1_w", "directed with a self-loop, singletons, weighted", "thorough"),
+            ("c12_modval_us_s0_p0_w", "undirected path, partition {2,0},{1}, weighted", "full"),
+            ("c12_modval_ds_s0_p0_w", "directed path, partition {2,0},{1}, weighted", "full"),
+            ("c12_modval_us_s1_p0_u", "undirected with a self-loop, unweighted", "full"),
+            ("c12_modval_ds_s1_p1_w", "directed with a self-loop, singletons, weighted", "full"),
             ("c12_modval_um_s2_p0_w", "undirected multi-edge (3 parallel edges), weighted", "quick"),
             ("c12_modval_dm_s2_p2_w", "directed multi-edge, single community, weighted", "thorough"),
-            ("c12_modval_us_s5_p0_w", "undirected 3-cycle, weighted", "thorough"),
-            ("c12_modval_ds_s5_p1_u", "directed 3-cycle, singletons, unweighted", "thorough"),
+            ("c12_modval_us_s5_p0_w", "undirected 3-cycle, weighted", "full"),
+            ("c12_modval_ds_s5_p1_u", "directed 3-cycle, singletons, unweighted", "full"),
         ]
     ],
     "outside": "graphs with more than 3 nodes; resolutions other than 0.5/1/2; f64::powf is replaced by x*x for exponent 2 (Kani models powf nondeterministically); modularity compared within 1e-9",
@@ -179,6 +232,15 @@ PROPS["C16"] = {
     "assumptions": ["f64::ln is replaced by its sign contract on (0,1] (ln(1)=0, negative and >= -745.2 otherwise)", "Graph::add_node / add_edge_tuples are stubbed (recording the pair list); the real mutation code is the subject of C01",
                     "counterexamples are confirmed by a native seeded sweep of the public fast_gnp_random_graph, not value-by-value"],
     "jobs": 4,
+}
+
+# ---------------------------------------------------------------- C20
+ATTACH["C20"] = {"ac": [("src/graph/mod.rs", "model.rs"), ("src/algorithms/mod.rs", "totality_ac.rs")]}
+PROPS["C20"] = {
+    "harnesses": [H(name, "ac", what, tier=tier, covers=covers, bounds="<=3 nodes, <=4 edges; shapes and kinds enumerated; unwind 9", timeout=1500) for (name, call, tier, covers, what) in _gen.c20_cases()],
+    "outside": "graphs with more than 3 nodes; the weighted forms of clustering (cbrt unsupported) and of the searches; GraphML and generators (C16/C19); hangs are only excluded up to the unwinding bound",
+    "assumptions": ["graphs are produced by build_direct (validated by the c02_build_* harnesses)", "f64::powf(x, 2.0) is stubbed as x*x"],
+    "jobs": 10,
 }
 
 def attachments(pid, build):
